@@ -4,10 +4,12 @@
 mod bq;
 mod exec;
 mod gen;
+mod ids;
 mod kernels;
 mod keys;
 mod profiles;
 mod replay;
+mod threads;
 mod util;
 
 use std::fs::File;
@@ -80,6 +82,8 @@ struct Args {
     exhaustive: Option<usize>,
     per_dim: Option<usize>,
     random: Option<usize>,
+    max_schedules: Option<usize>,
+    max_snapshots: Option<usize>,
 }
 
 fn parse_args() -> Result<Args, String> {
@@ -118,6 +122,8 @@ fn parse_args() -> Result<Args, String> {
             "--exhaustive" => args.exhaustive = Some(value(&mut it, "--exhaustive")?),
             "--per-dim" => args.per_dim = Some(value(&mut it, "--per-dim")?),
             "--random" => args.random = Some(value(&mut it, "--random")?),
+            "--max-snapshots" => args.max_snapshots = Some(value(&mut it, "--max-snapshots")?),
+            "--max-schedules" => args.max_schedules = Some(value(&mut it, "--max-schedules")?),
             flag if flag.starts_with("--") => return Err(format!("unknown option {flag}")),
             _ if args.scenario.is_empty() => args.scenario = a,
             _ => args.positional.push(a),
@@ -244,6 +250,65 @@ fn real_main() -> Result<(), String> {
             let _ = writeln!(out, "# harness keys --seed {seed}");
             keys::run(seed, args.random.unwrap_or(if quick { 2000 } else { 10000 }), &mut *out)?;
             out.flush().map_err(|e| e.to_string())
+        }
+        "threads" => {
+            let name = args.profile.clone().unwrap_or_else(|| "c08".to_string());
+            let profile = profiles::profile(&name, tier)
+                .ok_or_else(|| format!("unknown profile {name} (see `harness profiles`)"))?;
+            let mut out = open_out(&args.out)?;
+            let overrides = gen::Overrides {
+                mapsize: args.mapsize,
+                poll_limit: args.poll_limit,
+                threads: args.threads,
+            };
+            let cases = args.cases.unwrap_or(profile.default_cases);
+            let range: Vec<u64> = match args.only_case {
+                Some(n) => vec![n],
+                None => (args.first_case..args.first_case + cases).collect(),
+            };
+            let max_snapshots = args.max_snapshots.unwrap_or(if quick { 200 } else { 1000 });
+            let _ = writeln!(out, "# harness threads --profile {name} --seed {seed} --cases {cases}");
+            let (mut steps, mut snaps, mut commits, mut panics) = (0, 0, 0, 0);
+            for n in &range {
+                let s = threads::run_case(
+                    &profile,
+                    *n,
+                    util::case_seed(seed, *n),
+                    &overrides,
+                    max_snapshots,
+                    &mut *out,
+                )?;
+                steps += s.steps;
+                snaps += s.snapshots;
+                commits += s.commits;
+                panics += s.panicked as usize;
+            }
+            out.flush().map_err(|e| e.to_string())?;
+            if !args.quiet {
+                eprintln!(
+                    "threads {name}: {} cases, {steps} ops, {commits} commits, {snaps} snapshot records, panicked cases={panics}, {:.1}s",
+                    range.len(),
+                    started.elapsed().as_secs_f64()
+                );
+            }
+            Ok(())
+        }
+        "ids" => {
+            let mut out = open_out(&args.out)?;
+            let cap = args.max_schedules.unwrap_or(if quick { 3000 } else { 40000 });
+            let _ = writeln!(out, "# harness ids --seed {seed} --max-schedules {cap}");
+            let stats = ids::run(seed, tier, cap, &mut *out)?;
+            out.flush().map_err(|e| e.to_string())?;
+            if !args.quiet {
+                eprintln!(
+                    "ids: {} configurations ({} exhaustive), {} schedules, {:.1}s",
+                    stats.configs,
+                    stats.exhaustive,
+                    stats.schedules,
+                    started.elapsed().as_secs_f64()
+                );
+            }
+            Ok(())
         }
         other => Err(format!("unknown scenario {other}\n\n{HELP}")),
     }
